@@ -127,6 +127,9 @@ class HTMLParser(object):
 
     def reset(self):
         self.tree.reset()
+        # The phase objects outlive a parse; drop table text left pending
+        # by a parse that was aborted (strict error, failing input source)
+        self.phases["inTableText"].characterTokens = []
         self.firstStartTag = False
         self.errors = []
         self.log = []  # only used with debug mode
